@@ -114,6 +114,23 @@ class ArrT(T):
         return (self.k, self.v)
 
 
+class RecT(T):
+    """Named immutable record of ground fields (DataFrame / Series abstractions)."""
+
+    def __init__(self, name, fields):
+        self.name = name
+        self.fields = tuple(fields)          # ((fname, T), ...)
+
+    def key(self):
+        return (self.name, self.fields)
+
+    def __repr__(self):
+        return 'RecT(%s)' % self.name
+
+    def ftype(self, f):
+        return dict(self.fields)[f]
+
+
 class ObjT(T):
     def __init__(self, cls):
         self.cls = cls
@@ -159,6 +176,8 @@ def _name(t):
         return 'O_' + _name(t.t) + '_'
     if isinstance(t, ArrT):
         return 'A_' + _name(t.k) + '_' + _name(t.v) + '_'
+    if isinstance(t, RecT):
+        return 'R' + t.name
     raise TypeError('no sort name for %r' % (t,))
 
 
@@ -192,6 +211,10 @@ def sort_of(t):
         s = z3.ArraySort(sort_of(t.k), z3.BoolSort())
     elif isinstance(t, ArrT):
         s = z3.ArraySort(sort_of(t.k), sort_of(t.v))
+    elif isinstance(t, RecT):
+        d = z3.Datatype(_name(t))
+        d.declare('mk', *[(fn, sort_of(ft)) for fn, ft in t.fields])
+        s = d.create()
     elif isinstance(t, OptT):
         d = z3.Datatype(_name(t))
         d.declare('none')
